@@ -200,7 +200,20 @@ def run_input(it, idx, scratch, out):
         out.append({"id": len(out), "input": idx, "entry": name, "outcome": outcome, "events": STATE["events"], "tag": it["tag"]})
 
 
+def lazy_import(name):
+    """the documented importlib.util.LazyLoader recipe: the module is in sys.modules, its body has not run"""
+    import importlib.util
+    spec = importlib.util.find_spec(name)
+    loader = importlib.util.LazyLoader(spec.loader)
+    spec.loader = loader
+    module = importlib.util.module_from_spec(spec)
+    sys.modules[name] = module
+    loader.exec_module(module)
+    return module
+
+
 def main():
+    lazy_import("verif_lazy")          # the host program has a lazily imported module that an input may name
     extra = json.load(open(sys.argv[1])).get("extra_path")
     if extra:
         sys.path.insert(0, extra)
